@@ -46,9 +46,13 @@ type apiCall struct {
 	op           string
 	call, ret    uint64
 	err          string // "" = nil
-	wanted       map[string]bool
-	snap         map[string]int // statuses right after the return
-	failedBefore bool           // an earlier Start/ManageModules returned an error
+	who          string
+	wanted       map[string]bool // modules that must be online after a nil return (the determined part)
+	maybe        map[string]bool // modules that may be online (wanted, or touched by a concurrent Enable/Disable)
+	overlap      bool            // a Start/ManageModules/Shutdown call of another client overlapped this one
+	snap         map[string]int  // statuses right after the return
+	snapSeq      uint64
+	failedBefore bool // an earlier Start/ManageModules returned an error
 }
 
 // Verdict is the outcome of judging one scenario.
@@ -67,6 +71,7 @@ type Verdict struct {
 	Restarts                         int // modules started more than once
 	RetriedInPass                    int // a module's start routine launched twice by one Start/ManageModules call
 	RetriedDetail                    string
+	OverlapCalls                     int // Start/ManageModules/Shutdown calls that overlapped a call of another client
 	WantedChecks, OrderChecks        int
 }
 
@@ -146,9 +151,16 @@ func judge(sc *Scenario, out *ChildOut) *Verdict {
 	for _, n := range names {
 		logs[n] = &modLog{}
 	}
-	enabled := map[string]bool{}
+	// Enable/Disable calls of all clients
+	type flagOp struct {
+		mod       string
+		on        bool
+		call, ret uint64 // ret == 0: did not return inside the log
+	}
+	var ops []*flagOp
+	openOp := map[string]*flagOp{}
 	var calls []*apiCall
-	var cur *apiCall
+	curBy := map[string]*apiCall{} // the latest Start/ManageModules/Shutdown call per client
 	var quiescent map[string]int
 	running := map[string]int{}
 	anyFailed := false
@@ -196,12 +208,13 @@ func judge(sc *Scenario, out *ChildOut) *Verdict {
 			}
 		case "ret":
 			switch e.Op {
-			case "enable":
-				enabled[fStr(e.F, "m")] = true
-			case "disable":
-				enabled[fStr(e.F, "m")] = false
+			case "enable", "disable":
+				if o := openOp[e.Who]; o != nil {
+					o.ret = e.Seq
+					delete(openOp, e.Who)
+				}
 			case "Start", "ManageModules", "Shutdown":
-				if cur != nil {
+				if cur := curBy[e.Who]; cur != nil && cur.ret == 0 {
 					cur.ret = e.Seq
 					cur.err = fStr(e.F, "err")
 					if cur.op != "Shutdown" && cur.err != "" {
@@ -211,17 +224,65 @@ func judge(sc *Scenario, out *ChildOut) *Verdict {
 			}
 		case "call":
 			switch e.Op {
+			case "enable", "disable":
+				o := &flagOp{mod: fStr(e.F, "m"), on: e.Op == "enable", call: e.Seq}
+				ops = append(ops, o)
+				openOp[e.Who] = o
 			case "Start", "ManageModules", "Shutdown":
-				cur = &apiCall{op: e.Op, call: e.Seq, failedBefore: anyFailed}
-				cur.wanted = wantedSet(sc, spec, enabled)
+				cur := &apiCall{op: e.Op, who: e.Who, call: e.Seq, failedBefore: anyFailed}
+				curBy[e.Who] = cur
 				calls = append(calls, cur)
 			}
 		case "snap":
 			if e.Op == "quiescent" {
 				quiescent = statusMap(e.F)
-			} else if cur != nil && cur.snap == nil && cur.ret != 0 {
+			} else if cur := curBy[e.Who]; cur != nil && cur.snap == nil && cur.ret != 0 {
 				cur.snap = statusMap(e.F)
+				cur.snapSeq = e.Seq
 			}
+		}
+	}
+	// The wanted set of a pass is fixed by the Enable/Disable calls that returned before
+	// the pass was called. A call of another client that was in progress or issued while
+	// the pass ran - up to the moment the caller took its snapshot - makes that module
+	// undetermined: it need not be online, but it may be. (Every module is switched by
+	// one client only, so the calls on one module are ordered.)
+	for _, c := range calls {
+		if c.op == "Shutdown" {
+			continue
+		}
+		until := c.snapSeq
+		if until == 0 {
+			until = inf
+		}
+		sure, open := map[string]bool{}, map[string]bool{}
+		for _, o := range ops { // in call order
+			switch {
+			case o.ret != 0 && o.ret < c.call:
+				sure[o.mod] = o.on
+			case o.call < until:
+				open[o.mod] = true
+			}
+		}
+		may := map[string]bool{}
+		for m, on := range sure {
+			may[m] = on
+		}
+		for m := range open {
+			sure[m] = false
+			may[m] = true
+		}
+		c.wanted = wantedSet(sc, spec, sure)
+		c.maybe = wantedSet(sc, spec, may)
+	}
+	for _, c := range calls {
+		for _, o := range calls {
+			if o != c && o.who != c.who && o.call < c.ret && (o.ret == 0 || o.ret > c.call) {
+				c.overlap = true
+			}
+		}
+		if c.overlap {
+			v.OverlapCalls++
 		}
 	}
 
@@ -530,13 +591,16 @@ func judge(sc *Scenario, out *ChildOut) *Verdict {
 			if c.wanted[n] && !on {
 				missing = append(missing, fmt.Sprintf("%s(%s)", n, stName[c.snap[n]]))
 			}
-			if !c.wanted[n] && on {
+			if !c.maybe[n] && on {
 				extra = append(extra, n)
 			}
 		}
 		cls := ""
 		if c.failedBefore {
 			cls = ":after-failed-pass"
+		}
+		if c.overlap {
+			cls += ":concurrent-call"
 		}
 		if len(missing) > 0 {
 			add("C01:wanted-set:"+c.op+":missing"+cls,
@@ -549,13 +613,17 @@ func judge(sc *Scenario, out *ChildOut) *Verdict {
 	}
 
 	// ---- O5: after Shutdown ----------------------------------------------------------
-	var sd *apiCall
+	var sd *apiCall // the Shutdown call that returned last
+	var sds []*apiCall
 	for _, c := range calls {
-		if c.op == "Shutdown" {
-			sd = c
+		if c.op == "Shutdown" && c.ret != 0 {
+			sds = append(sds, c)
+			if sd == nil || c.ret > sd.ret {
+				sd = c
+			}
 		}
 	}
-	if sd == nil || sd.ret == 0 {
+	if sd == nil {
 		v.Incon = append(v.Incon, "Shutdown did not return inside the log")
 		return v
 	}
@@ -618,11 +686,45 @@ func judge(sc *Scenario, out *ChildOut) *Verdict {
 		}
 		return "other"
 	}
-	if sd.snap != nil {
+	// every Shutdown call that returns - also one that only reports that a shutdown was
+	// already initiated - promises its caller that nothing is online any more and that
+	// every successful start has had its stop routine invoked
+	for _, c := range sds {
+		cls := class
+		if c.overlap {
+			cls = func(string) string { return "overlapping-shutdown" }
+		}
+		if c.snap != nil {
+			for _, n := range names {
+				if c.snap[n] == stOnline {
+					add("C01:shutdown:online-at-return:"+cls(n),
+						"Shutdown (client %s) returned at seq %d (err=%q) but module %s is still online; statuses: %s", c.who, c.ret, c.err, n, fmtStatus(names, c.snap))
+				}
+			}
+		}
+		if !c.overlap {
+			continue // for a single Shutdown the count is taken at quiescence below
+		}
 		for _, n := range names {
-			if sd.snap[n] == stOnline {
-				add("C01:shutdown:online-at-return:"+class(n),
-					"Shutdown returned (err=%q) but module %s is still online; statuses: %s", sd.err, n, fmtStatus(names, sd.snap))
+			if spec[n].Start.Nil || spec[n].Stop.Nil {
+				continue
+			}
+			v.OrderChecks++
+			nS, nT := 0, 0
+			for _, st := range logs[n].start {
+				if st.end != 0 && st.end < c.ret && st.res == "ok" {
+					nS++
+				}
+			}
+			for _, t := range logs[n].stop {
+				if t.begin < c.ret {
+					nT++
+				}
+			}
+			if nT < nS {
+				add("C01:stop-count:not-invoked-at-return:overlapping-shutdown",
+					"Shutdown (client %s) returned at seq %d (err=%q) but module %s had %d successful start(s) and only %d stop invocation(s) by then (starts: %s; stops: %s)",
+					c.who, c.ret, c.err, n, nS, nT, fmtInvs(logs[n].start), fmtInvs(logs[n].stop))
 			}
 		}
 	}
